@@ -225,6 +225,16 @@ def _tol_cases(v, tier):
                                 c["tol"] = tol
                             yield c
                         yield dict({"a": e, "ix": [["l", [q, lab[-1]]]], "sp": "take", "mode": "label"}, **({} if tol is None else {"tol": tol}))
+        if v[0] == ("f", "inc"):
+            # infinite labels (open-ended bins): they are ON the axis, at distance 0 from themselves, whatever the tolerance
+            inf = float("inf")
+            e = D.spec(["x"], [[-inf, 0.0, 5.0, inf]], ["f"])
+            for tol in (0, 1, inf):
+                for q in (inf, -inf, 5.0, 4.5):
+                    for sp in ("take", "dictn", "loc"):
+                        yield {"a": e, "ix": [["s", q]], "sp": sp, "mode": "label", "tol": tol}
+                yield {"a": e, "ix": [["l", [5.0, inf]]], "sp": "take", "mode": "label", "tol": tol}
+            yield {"a": dict(e, axtol=[0.5]), "ix": [["s", inf]], "sp": "take", "mode": "label"}
         if v[0] == ("i", "inc"):
             # narrow integer labels: the distance |label - query| does not fit the label dtype
             for ldt, labs, q, tol in (("uint8", [1, 5, 9], 6, 1), ("uint16", [1, 5, 9], 5.25, 0.5), ("uint64", [1, 5, 9], 7, 1), ("int8", [-100, 60], 120, 40), ("int8", [-100, 60], 120, 70), ("int32", [-2000000000, 1500000000], 2000000000, 600000000),
